@@ -131,3 +131,36 @@ Definition c15_item_plain (l : c15_lang) (lg : lang) (const_name : str -> str) (
     c15_rtype_plain l (atype a)
   | ItConst c => c15_plain l (const_name (renamed (cid c))) && c15_rtype_plain l (ctype c)
   end.
+
+(* ---- the stricter input class used for Kotlin: every identifier is a non-empty string of characters
+   that open no comment and no literal, are no control characters and no backslash.  Such a string may be
+   printed bare, between double quotes through {:?}, or between double quotes VERBATIM (kotlin.rs writes
+   the wire name of a sealed-class variant as format!(r##""{}""##), unescaped). *)
+Definition c15_ident_char (l : c15_lang) (c : char) : bool :=
+  c15_plain_char l c && c15_lit_char c && negb (c =? ch_bs).
+Definition c15_ident_ok (l : c15_lang) (s : str) : bool :=
+  match s with [] => false | _ => forallb (c15_ident_char l) s end.
+Definition c15_field_strict (l : c15_lang) (lg : lang) (f : rfield) : bool :=
+  c15_ident_ok l (renamed (fid f)) &&
+  match type_override f lg with Some o => c15_plain l o | None => c15_rtype_plain l (fty f) end.
+Definition c15_variant_strict (l : c15_lang) (lg : lang) (v : rvariant) : bool :=
+  c15_ident_ok l (renamed (vid (variant_shared v))) && c15_ident_ok l (original (vid (variant_shared v))) &&
+  match v with
+  | VUnit _ => true
+  | VTuple t _ => c15_rtype_plain l t
+  | VAnon fs _ => forallb (c15_field_strict l lg) fs
+  end.
+Definition c15_item_strict (l : c15_lang) (lg : lang) (it : ritem) : bool :=
+  match it with
+  | ItStruct s =>
+    c15_ident_ok l (renamed (sid s)) && forallb (c15_plain l) (sgenerics s) && forallb (c15_field_strict l lg) (sfields s)
+  | ItEnum e =>
+    let sh := enum_shared e in
+    c15_ident_ok l (renamed (eid sh)) && c15_ident_ok l (original (eid sh)) && forallb (c15_plain l) (egenerics sh) &&
+    match e with EUnit _ => true | EAlgebraic _ content _ => c15_plain l content end &&
+    forallb (c15_variant_strict l lg) (evariants sh)
+  | ItAlias a =>
+    c15_ident_ok l (renamed (aid a)) && c15_ident_ok l (original (aid a)) && forallb (c15_plain l) (agenerics a) &&
+    c15_rtype_plain l (atype a)
+  | ItConst _ => true
+  end.
